@@ -30,12 +30,28 @@ import numpy as np
 from . import common
 
 PROP = "C13"
-LEAN_MODULES = ["MiciVerif.Props.C13"]
+# Props/C13S.lean: the control skeleton of samplers.py regenerated on every run
+# (Generated/SamplerSkeleton.lean, plug-in sampler_skeleton) equals the skeleton Model/Sampler.lean was
+# written against (Model/SamplerSkeleton.lean); named projections + semantic reading of the loop bodies
+LEAN_MODULES = ["MiciVerif.Props.C13", "MiciVerif.Props.C13S"]
 LEAN_EXTRA = [
     "MiciVerif.Model.Stagers", "MiciVerif.Model.Sampler", "MiciVerif.Model.SamplerCount",
     "MiciVerif.Model.SamplerDriver", "MiciVerif.Proto",
 ]
-GENERATED = ["stat_types"]
+GENERATED = ["stat_types", "sampler_skeleton"]
+SKELETON_MODULES = (".C13S.", ".C14S.", ".C15S.", ".C16K.")
+
+
+def skeleton_escalation(ctx) -> int:
+    """Factor by which the failing-input search is enlarged: > 1 when an obligation about the generated
+    control skeleton of samplers.py (Props/C13S, C14S, C15S, C16K) no longer checks, i.e. the orchestration
+    code is not the code the model was written against."""
+    broken = [o["theorem"] for o in ctx.obligations if not o["ok"] and any(m in o["theorem"] for m in SKELETON_MODULES)]
+    if not broken:
+        return 1
+    ctx.extra["skeleton_obligations_broken"] = broken
+    ctx.count("escalated_search(skeleton obligation broken)")
+    return 3
 
 
 class _Timeout(Exception):
@@ -955,9 +971,10 @@ def run(ctx: common.Ctx):
     ]
     for c in corner:
         cfgs.append({**DEFAULT, **c})
-    for _ in range(ctx.n(360, 10000)):
+    esc = skeleton_escalation(ctx)
+    for _ in range(ctx.n(360, 10000) * (esc if ctx.quick else 1)):
         cfgs.append(gen_cfg(rng))
-    for _ in range(ctx.n(14, 250)):
+    for _ in range(ctx.n(14, 250) * (esc if ctx.quick else 1)):
         c = gen_cfg(rng, small=True)
         c["n_process"] = [2, 3, None, 2][int(rng.integers(4))]
         c["memmap"] = str(rng.choice(["mem", "dir"]))
@@ -1056,6 +1073,7 @@ LEVEL_TEXT = (
     "by cell-by-cell comparison with the real sampler driven by a counting kernel over chains x counts x stagers x "
     "adapters x storage x process counts, by an independent recomputation of every expected row, and by real HMC "
     "runs compared with a re-execution."
+    " Source-text tie (Props/C13S): the control skeleton of samplers.py (sample_chains, _sample_chain, _sample_chains_sequential/_worker/_parallel, _finalize_adapters, _collate_chain_outputs, _update_chain_stats, _flush_memmap_chain_data) is re-extracted from the tree under test on every run as a statement tree and proved equal to the tree the model was written against; the stage-loop body and the iteration body, read statement by statement as operations on the model state, are proved equal to Sampler.runStage / Sampler.iterOps for every kernel, state, stage, mode and interrupt point (sem_stage_body_is_runStage, sem_iteration_body_is_iterOps); individual facts (n_process=None, offset rule, rows at index+offset, statistics before traces, arrays passed iff the stage records) are separate theorems."
 )
 LEVEL_NOTE = (
     "Partial: memmap / filesystem behaviour (open_memmap, flush, temporary directories, .npy read-back), process "
@@ -1065,8 +1083,10 @@ LEVEL_NOTE = (
     "produced by tools/extractors/stat_types.py (trusted, fail-closed, cross-checked against live objects); the key "
     "`diverging` written by Metropolis transitions under HamiltonianDivergenceError is outside the table's "
     "obligation because no built-in integrator raises that error."
+    " The skeleton extractor (tools/extractors/sampler_skeleton.py) is trusted to render the Python AST faithfully; it drops only docstrings, logging, message strings and five progress-display/thread-pool statements (listed in the generated table and compared with the expected list) and fails closed on anything outside its subset. The reading of a statement as a model operation (Skel.Sem) is a definition, validated by the correspondence runs; the bodies of the sequential/worker/parallel functions are tied syntactically only."
 )
 TECHNIQUE = (
     "Lean 4 theorems (induction over iterations / operations / stages of an executable sampler model) + decide on "
     "AST-extracted tables + cell-by-cell model/implementation comparison"
+    " + AST-extracted control skeleton proved equal to the model's (decide +kernel) and, for the two loop bodies, semantically equal to the model functions"
 )
